@@ -69,6 +69,7 @@ def cases(tier, rng):
     from gen.universe import tail_chain
     for ids, last in (([4, 68, 132], None), ([5, 261, 517, 69], lst([c, b])), (list(range(30, 97)), None), (list(range(30, 160)), lst([q])), ([9, 65545, 73], None)):
         longs.append(tail_chain(ids, el, last))
+    longs.append((lst([el[k % len(el)] for k in range(300)]), {}))
     for l, d in longs:
         ss = ss_from(d)
         out.append(("(bip %s (%s %s) %s)" % (S("count"), l, OUT, ss), "count"))
